@@ -1,7 +1,8 @@
 (* Properties/C19.v — C19: a public domain routes only to its single rightful owner.
    Model: Model/Domain.v.  One caller step = ONE storage call of the repository / of the proxy lookup.
    The reachable states quantify over ANY number of callers (sessions of any clients), ANY scripts of
-   create / delete / update / lookup on any names and Host strings, ANY pattern of failing storage calls, ANY
+   create / delete / update / lookup / expiry-cleanup on any names and Host strings, with ANY caller ids (Z: 0 and
+   negative ids included), ANY pattern of failing storage calls, ANY
    lookup times, ANY contents of the legacy registry and of cloud control, and ANY schedule.
    The scripts may contain the environment event "the clock passes the counter key's deadline" (OResetCounter) anywhere.
    Variant proved: the repaired removal path (removeMappingKeys), an atomic Incr, and the repaired generateMappingID
@@ -65,6 +66,56 @@ Theorem C19_only_owner_deletes :
   dstep true true true reg cloud t s = (finish t fs (RErr EForbidden), s).
 Proof. exact foreign_delete_refused. Qed.
 Print Assumptions C19_only_owner_deletes.
+
+(* (3') ... for ALL caller ids, in particular the ones that are not real clients: 0 (what CommandContext.ClientID holds for a
+   connection not bound to a client) and negative ids.  In every reachable state only ids > 0 ever claimed or released a
+   name and no stored mapping carries an id <= 0, hence a DeleteMapping called with such an id is refused on EVERY
+   stored mapping and leaves the store untouched; a CreateMapping with such an id draws an id and is refused by
+   validation without claiming or storing anything. *)
+Theorem C19_real_clients_only :
+  forall (reg cloud : name -> option pmap) (ts : list thr) (sched : list nat),
+  (forall t, In t ts -> fresh_thr t) ->
+  let s := drun true true true reg cloud empty_store ts sched in
+  (forall n i c, In (EvClaim n i c) (log (fst s)) -> (0 < c)%Z) /\
+  (forall n i c, In (EvRelease n i c) (log (fst s)) -> (0 < c)%Z) /\
+  (forall i r, recs (fst s) i = Some r -> (0 < r_client r)%Z).
+Proof. intros reg cloud ts sched H. exact (reach_real_clients_only reg cloud ts sched H). Qed.
+Print Assumptions C19_real_clients_only.
+
+Theorem C19_unbound_caller_cannot_delete :
+  forall (reg cloud : name -> option pmap) (ts : list thr) (sched : list nat),
+  (forall t, In t ts -> fresh_thr t) ->
+  let s := drun true true true reg cloud empty_store ts sched in
+  forall t r rest m fs,
+  pc t = Idle -> ops t = ODelete r :: rest -> next_fault t = (false, fs) ->
+  recs (fst s) (resolve t r) = Some m -> (cl t <= 0)%Z ->
+  dstep true true true reg cloud t (fst s) = (finish t fs (RErr EForbidden), fst s).
+Proof. intros reg cloud ts sched H s t r rest m fs. exact (reach_unbound_delete_refused reg cloud ts sched H t r rest m fs). Qed.
+Print Assumptions C19_unbound_caller_cannot_delete.
+
+Theorem C19_unbound_caller_cannot_create :
+  forall (reg cloud : name -> option pmap) t s sub base tgt fs,
+  pc t = PCIncr sub base tgt -> next_fault t = (false, fs) -> (cl t <= 0)%Z ->
+  dstep true true true reg cloud t s = (finish t fs (RErr EValidation), exec (AIncr (cl t) (full_domain sub base)) s).
+Proof. exact unbound_create_refused. Qed.
+Print Assumptions C19_unbound_caller_cannot_create.
+
+(* (3'') the expiry cleanup is an internal deleter: it selects only mappings it has read as expired, and deletes each with
+   the mapping's OWN client id (a record whose owner is not the one it read is skipped), so its releases are covered by
+   clause 3 of C19_single_owner like any owner's. *)
+Theorem C19_cleanup_only_removes_expired :
+  forall (reg cloud : name -> option pmap) t s now i rest acc m fs,
+  pc t = PCClScan now (i :: rest) acc -> next_fault t = (false, fs) -> recs s i = Some m -> is_expired m now = false ->
+  dstep true true true reg cloud t s = (cl_scan_next t fs now rest acc, s).
+Proof. exact cleanup_skips_unexpired. Qed.
+Print Assumptions C19_cleanup_only_removes_expired.
+
+Theorem C19_cleanup_acts_as_owner :
+  forall (reg cloud : name -> option pmap) t s i c rest cnt m fs,
+  pc t = PCClDGet ((i, c) :: rest) cnt -> next_fault t = (false, fs) -> recs s i = Some m -> r_client m <> c ->
+  dstep true true true reg cloud t s = (cl_del t fs rest cnt, s).
+Proof. exact cleanup_acts_as_owner. Qed.
+Print Assumptions C19_cleanup_acts_as_owner.
 
 (* (4) after a delete the name stops routing and is claimable again.  In a reachable state whose last event is the
    release of n: that release was the claimant's, the index has no entry for n, no Host resolving to n is answered
@@ -187,6 +238,17 @@ Print Assumptions C19_counter_never_expires.
 Theorem C19_premises_satisfiable : forall t, In t race_threads -> fresh_thr t.
 Proof. exact race_threads_fresh. Qed.
 Print Assumptions C19_premises_satisfiable.
+
+(* a history with the cleanup and with callers 0 and -1: the cleanup removes exactly client 1's expired mapping; the
+   unbound callers' deletes of client 2's mapping are refused, their create is refused, client 2 keeps its name *)
+Theorem C19_cleanup_and_unbound_callers_run :
+  let s := drun true true true none_legacy none_legacy empty_store cleanup_threads cleanup_sched in
+  map out (snd s) = [[RUpdated; RCreated 1]; [RCreated 2]; [RErr EValidation; RCleaned 1; RErr EForbidden];
+                     [RDeleted; RErr EForbidden]; [RRouted 1 (full_domain nm_b nm_base) 2 2 22; RErr ENotFound]] /\
+  idx (fst s) host_a = None /\ idx (fst s) (full_domain nm_b nm_base) = Some 2 /\ recs (fst s) 1 = None /\
+  glist (fst s) = [2] /\ stale_release (log (fst s)) = false.
+Proof. exact cleanup_run. Qed.
+Print Assumptions C19_cleanup_and_unbound_callers_run.
 
 Theorem C19_repaired_run :
   let s := drun true true true none_legacy none_legacy empty_store race_threads race_sched_fixed in
